@@ -49,6 +49,7 @@ def upd {α : Type} (f : Nat → α) (k : Nat) (v : α) : Nat → α := fun i =>
 structure Call (Draw : Type) where
   draws : List Draw
   raises : Bool
+  deriving DecidableEq, Repr
 
 /-- what the caller of a sampler observes. -/
 inductive Result (Out : Type) where
@@ -256,6 +257,7 @@ inductive MOp (G Draw : Type) where
   | set (v : Option G)
   /-- the caller advanced the very object the model holds by reference. -/
   | ext (d : Draw)
+  deriving DecidableEq
 
 def isoStep (v : Option G) : MOp G Draw → Option G
   | .sample c => v.map fun g => advDraws A g c.draws
